@@ -4,7 +4,7 @@ import z3
 from vf.pyvc.lib import REG
 from vf.pyvc import timelib  # noqa
 from vf import tables as T
-from contracts import cleaners as K, lexical as KL
+from contracts import cleaners as K, lexical as KL, coconstraints as KC
 from props import _objects as O
 
 LEVEL = 'other'
@@ -48,7 +48,9 @@ def run(chk):
     chk.registry = REG
     chk.explanation = ('P: language of every lexical regex == specification grammar (type names, dictionary keys, hex, selectors, 15 hash value rules; two inclusion '
                        'queries each, witnesses are concrete strings); _validate_type and IntegerProperty.clean accept exactly the specification-valid values; ten '
-                       'timestamp-order co-constraint overrides (normal return => constraint; ValueError only when violated); ListProperty / HashesProperty / '
+                       'timestamp-order co-constraint overrides (normal return => constraint; ValueError only when violated); the three inter-property helpers every per-type '
+                       'constraint is built from (_check_mutually_exclusive_properties, _check_at_least_one_property, _check_properties_dependency: error iff the stated '
+                       'condition on the populated properties, nested loop invariants); ListProperty / HashesProperty / '
                        'ReferenceProperty.clean never return custom content in strict mode.  Table invariant (exhaustive): abstract view of all 1382 property '
                        'slots == frozen model.  B (fault enumeration): every parseable type x every slot x corruption kind (removed, wrong JSON kind, out of range / '
                        'vocabulary, disallowed or malformed reference, malformed identifier / timestamp / key / hash / hex, unknown property, violated co-constraint): '
@@ -57,7 +59,7 @@ def run(chk):
     chk.trust('spec/tables_v20.json, spec/tables_v21.json, spec/lexical.py and vf/tables.py COCONSTRAINTS as the specification model (bootstrapped from the tree after the fix commits, deviations known at build time kept as findings)')
     chk.assume('pattern validity is delegated to stix2patterns (assumed)', 'custom property names are checked for their first character only: known finding (reachable only with customisation allowed)')
     lexical_part(chk, 'C02')
-    cs = [K.validate_type_contract(), K.integer_clean_contract(), K.hashes_clean_contract(), K.list_clean_contract(), K.reference_clean_contract()] + [K.order_contract(*row) for row in K.ORDER_TABLE]
+    cs = [K.validate_type_contract(), K.integer_clean_contract(), K.hashes_clean_contract(), K.list_clean_contract(), K.reference_clean_contract()] + [K.order_contract(*row) for row in K.ORDER_TABLE] + KC.all_contracts()
     for c in cs:
         chk.prove(c); chk.canary(c)
     from vf.callsites import purity_obligations
